@@ -935,6 +935,8 @@ def deck_stream(res, rng, quick):
             res.count('lattice TRCL')
         if meta['cont_tr']:
             res.count('container transformed')
+        if meta['nested']:
+            res.count('nested lattice as filler')
         if fault:
             res.count('fault:' + fault)
         if k in (0, n_valid):
@@ -961,6 +963,7 @@ def deck_stream(res, rng, quick):
                                'theorem_or_correspondence': 'tie:develop'},
                               found_input=False)
             if not meta['lat_trcl'] and not broken and \
+                    rec['key'] == c06_gen.LAT_CELL and \
                     rec['ids'] != lits_of(deck):
                 res.violation('correspondence',
                               'tie:develop: surfaces are not handed over in '
@@ -988,7 +991,7 @@ def deck_stream(res, rng, quick):
                           f'{conv.msg[:200]}', {'input': payload},
                           found_input=True)
             continue
-        if len(records) != 1:
+        if len(records) != 1 + int(meta['nested']):
             res.violation('correspondence',
                           f'develop_lattice called {len(records)} times for '
                           'one lattice cell',
@@ -1050,6 +1053,10 @@ CORPUS_SHAPES = [
      'cont_tr': False},
     {'d': 3, 'kind': 'skew', 'homogeneous': False, 'lat_trcl': False,
      'cont_tr': False},
+    # a lattice nested in the elements of the lattice
+    {'d': 2, 'kind': 'ortho', 'homogeneous': False, 'nested': True},
+    {'d': 1, 'kind': 'rot', 'homogeneous': True, 'fill_tr': True,
+     'fill_tr_mode': 'rot', 'lat_trcl': False, 'nested': True},
     # RPP macrobody unit cell
     {'d': 3, 'kind': 'ortho', 'rpp': True, 'homogeneous': False},
     {'d': 3, 'kind': 'ortho', 'rpp': True, 'homogeneous': True,
